@@ -101,7 +101,7 @@ func (r C15Rule) text() string {
 func init() {
 	register(&Prop{
 		ID:   "C15",
-		Rule: "rule sets of 2-7 rules that all use the same two local names: writers (x = uniq(); gate(); chk(x)), readers that never assign (must fail in every model and call), conditional writers driven by an injected flag that changes between calls, writers/readers of a shared injected struct field; 2-3 calls per case over all execution models of engine and pool, DAG layers that repeat a rule, 2-3 simultaneous identical pool requests, writers parked on Hold gates between assignment and read; oracle: every chk receives exactly the value its own execution drew (multiset of drawn and checked values per rule equal, no value seen twice), a reader that never assigned never gets a value, a conditional writer fails whenever its flag is off even if an earlier call or a concurrent execution assigned the local, a shared field written by an earlier rule of a sorted call is seen by the later rule. Non-trivial: >= 2 rules (or >= 2 concurrent executions of one rule) share a local name and a writer was parked; distinct by case hash",
+		Rule: "rule sets of 2-7 rules that all use the same two local names: writers (x = uniq(); gate(); chk(x)), readers that never assign (must fail in every model and call), conditional writers driven by an injected flag that changes between calls, writers/readers of a shared injected struct field, rules whose forRange key variable is a pointer-injected name and rules that read that name; 2-3 calls per case over all execution models of engine and pool, DAG layers that repeat a rule, 2-3 simultaneous identical pool requests, writers parked on Hold gates between assignment and read; oracle: every chk receives exactly the value its own execution drew (multiset of drawn and checked values per rule equal, no value seen twice), a reader that never assigned never gets a value, a conditional writer fails whenever its flag is off even if an earlier call or a concurrent execution assigned the local, a shared field written by an earlier rule of a sorted call is seen by the later rule, an injected forRange key holds the last key afterwards - for the host, for the looping rule and for later rules of a sorted call. Non-trivial: >= 2 rules (or >= 2 concurrent executions of one rule) share a local name and a writer was parked; distinct by case hash",
 		New:  func() interface{} { return &C15Case{} },
 		Gen: func(t *rapid.T) interface{} {
 			c := &C15Case{QuiesMs: 2}
